@@ -74,6 +74,10 @@ SchedStep(e) ==
                         \cup E(u \in sarr, "C20.Routing")
                         \cup E(u \notin scn, "C08.NamedRelayed") : u \in us}
         [] e.ev = "SLocal" -> E(~Needs(e.uid), "C20.Routing")
+        \* a queue has registered: nothing it could take is left behind
+        [] e.ev = "SRegDone" ->
+            UNION {E(~(Rq(u).rid \in sreg \/ (Rq(u).rid = "*" /\ sreg # {})), "C05.RaptorTaskStuck")
+                   : u \in SeqSet(e.after)}
         [] e.ev = "SCancel" ->
             E(e.uid \in snamed, "C08.CanceledNotNamed") \cup E(scanc[e.uid] = 0, "C08.CanceledTwice")
         [] e.ev = "SCancelDone" ->
@@ -87,7 +91,9 @@ SchedStep(e) ==
             LET bl == SeqSet(e.backlog) qs == SeqSet(e.queues)
                 kept(u) == u \in bl /\ Rq(u).rid \notin qs /\ ~(Rq(u).rid = "*" /\ qs # {})
                 gone(u) == scanc[u] >= 1 /\ u \in snamed
-            IN UNION {
+            IN UNION {E(~(u \in bl /\ (Rq(u).rid \in qs \/ (Rq(u).rid = "*" /\ qs # {}))),
+                        "C05.RaptorTaskStuck") : u \in sarr}
+               \cup UNION {
                 (IF Needs(u)
                  THEN E(u \notin sloc, "C20.Routing")
                       \cup E((sfw[u] = 1 /\ u \notin bl)
@@ -103,7 +109,7 @@ SchedStep(e) ==
         [] OTHER -> {})
 
 IsSched(e) == e.ev \in {"SArrive", "SReg", "SUnreg", "SFwd", "SLocal", "SFail", "SEnd",
-                        "SCancelReq", "SCancel", "SCancelDone"}
+                        "SCancelReq", "SCancel", "SCancelDone", "SRegDone"}
 
 (* ---- dispatcher contract -------------------------------------------------- *)
 CallErrs(e) ==
@@ -264,6 +270,9 @@ WorkerStep(e) ==
             /\ errs' = errs \cup e0 \cup same
                  \cup E(\A u \in Uids : held[u] = NoSlots, "C20.AllBack")
                  \cup E(AllZero(lo, lg) /\ e.npool = 0, "C20.AllBack")
+                 \* mpi: the puller still waits for ranks although all of them are free
+                 \cup (IF T.family = "mpi"
+                       THEN E(e.waiting = "none" \/ ~AllZero(lo, lg), "C20.NotStuck") ELSE {})
                  \cup UNION {E(nput[u] >= 1, "C20.ResultLost") : u \in tow}
                  \cup UNION {E(nback[u] >= 1, "C20.ResultLost") : u \in disp}
             /\ UNCHANGED <<held, nput, nback, mvis, tow, disp, rres>>
